@@ -602,6 +602,50 @@ def run(ctx):
             for f in os.listdir(ctx.work):
                 if f.startswith(f'p{k2}.') or f.startswith(f'p{k2}_again'):
                     os.remove(os.path.join(ctx.work, f))
+    # ---- an input text that starts with "=" (written after the build), saved and loaded
+    for ext in ('yml', 'json', 'pkl'):
+        wbq = wbgen.WB()
+        wbq.add_input(2)
+        a2 = wbq.add_input('abc')
+        wbq.add_formula('=A1+1', [0], [3, 0, [0, 0], [1, 1]])
+        f4 = wbq.add_formula('=A2&"x"', [a2], [3, 5, [0, 0], [2, 120]])
+        desc = [(x['addr'], x.get('value'), x.get('text')) for x in wbq.nodes]
+        case = dict(call='persist', workbook=desc, args=[ext, 'plain', 'same'], eq_text_input=True)
+        ctx.count(('eqtext', ext), kind='eq-text-input')
+        try:
+            comp = ExcelCompiler(excel=wbq.to_openpyxl())
+            for i in wbq.cells():
+                comp.evaluate(wbq.nodes[i]['addr'])
+            comp.set_value('S!A2', '=abc')
+            want = canon(comp.evaluate('S!A4'))
+            stem = os.path.join(ctx.work, 'eqtext')
+            comp.to_file(stem, file_types=(ext,))
+            loaded = ExcelCompiler.from_file(stem + '.' + ext)
+            try:
+                got = ('ok', canon(loaded.evaluate('S!A4')))
+            except Exception as exc:      # noqa: BLE001
+                got = ('raise', type(exc).__name__)
+            if got != ('ok', want):
+                ctx.violation(dict(case, history=[['eval', 'S!A4']]),
+                              "the loaded model answers a history differently from the original",
+                              impl=got, expected=('ok', want))
+        except Exception as exc:      # noqa: BLE001
+            ctx.violation(case, f"save/load raises {type(exc).__name__}: {exc}"[:200])
+    # ---- second save with a user extra_data dict: byte-identical?
+    for ext in ('yml', 'json'):
+        wbq = wbgen.gen_workbook(rng, ncells=5, pool=wbgen.CLEAN_POOL)
+        comp = ExcelCompiler(excel=wbq.to_openpyxl())
+        for i in wbq.cells():
+            comp.evaluate(wbq.nodes[i]['addr'])
+        comp.extra_data = {'note': 1}
+        stem = os.path.join(ctx.work, 'twice')
+        comp.to_file(stem, file_types=(ext,))
+        h1 = file_hash(stem + '.' + ext)
+        comp.to_file(stem, file_types=(ext,))
+        ctx.count(('twice', ext), kind='resave-extra-data')
+        if file_hash(stem + '.' + ext) != h1:
+            ctx.violation(dict(call='persist', args=[ext, 'plain', 'same'], oracle='bytes', extra_data_dict=True),
+                          "saving the unchanged model again changes the text file")
     # ---- extra_data survives
     wb = wbgen.gen_workbook(rng, ncells=6, pool=wbgen.CLEAN_POOL)
     for ext in ('yml', 'json', 'pkl'):
